@@ -164,6 +164,28 @@ func (x *Exec) runeCond(r *RegexpObj, in *syntax.Inst, b *Term) *Term {
 			return st.Bool(in.MatchRune(0xFFFD))
 		}
 	}
+	if n, ok := x.hexOf[b]; ok {
+		// b is the lower-case hex digit of nibble n: decide per nibble value
+		all, none := true, true
+		res := st.False
+		for v := 0; v < 16; v++ {
+			if in.MatchRune(rune("0123456789abcdef"[v])) {
+				none = false
+				res = st.Or(res, st.Eq(n, st.Const(n.w, uint64(v))))
+			} else {
+				all = false
+			}
+		}
+		if all {
+			return st.True
+		}
+		if none && len(r.holes) == 0 {
+			return st.False
+		}
+		if len(r.holes) == 0 {
+			return res
+		}
+	}
 	res := st.False
 	// ASCII table as ranges
 	v := 0
